@@ -6,6 +6,7 @@ mod c04;
 mod c05;
 mod c06;
 mod c07;
+mod c08;
 mod c09;
 mod c10;
 mod c11;
@@ -43,6 +44,7 @@ fn main() {
             std::fs::write(format!("{path}.out"), out).expect("write result");
             0
         }
+        Some("c08child") => c08::child(&args[2], &args[3]),
         Some("c19child") => c19::child(&args[2], &args[3]),
         Some("parse1") => c17::parse1(&args[2]),
         Some("selftest") => match interpose::self_test(&explore::work_root()) {
@@ -66,6 +68,7 @@ fn main() {
                 "C05" => c05::check(&tier),
                 "C06" => c06::check(&tier),
                 "C07" => c07::check(&tier),
+                "C08" => c08::check(&tier),
                 "C09" => c09::check(&tier),
                 "C10" => c10::check(&tier),
                 "C11" => c11::check(&tier),
